@@ -1,4 +1,5 @@
 import FxVerif.Proofs.C13Owed
+import FxVerif.Proofs.C13StakeLe
 /-!
 # C13 — oracle registry one-to-one; stake recoverable; only missed signing is slashed
 
@@ -108,6 +109,54 @@ theorem stake_accounting (p : Params) (bals : Store Nat Nat) (ops : List Op) (ht
   have hall := run_all slashing_code_facts guard_code_facts ops (init p bals) hthr hops
     ⟨init_inv p bals, init_fit p bals, init_stake p bals⟩
   exact hall.stake.acc a r hr hnever
+
+/-- **stake_accounting_with_validator_slash**: for EVERY op list — validator slashing, governance removal and re-approval
+included, no hypothesis on the threshold, no `undel = 0` hypothesis — and every oracle record: the recorded
+`DelegateAmount` is exactly what the oracle transferred by `BondedOracle` / `AddDelegate` (ghost `sent`, net of the burned
+penalty), and what is delegated on its behalf to its `DelegateValidator` is at most that (equal until a validator slash,
+see `stake_accounting`; never more).  Induction over the op list with the invariants `Inv`, `FitInv`, `StakeLeInv`.
+
+That a delegation EXISTS cannot be concluded from `undel = 0` once validators can be slashed (`slashedToZero` below): see
+`stake_accounting_with_validator_slash_never_removed` for the hypothesis it needs. -/
+theorem stake_accounting_with_validator_slash (p : Params) (bals : Store Nat Nat) (ops : List Op) (a : Nat) (r : Oracle)
+    (hr : Store.get (run (init p bals) ops).oracles a = some r) :
+    (∀ t, Store.get (run (init p bals) ops).deleg (a, r.val) = some t → t ≤ r.amount) ∧
+    delegAmt (run (init p bals) ops) a r.val ≤ r.amount ∧
+    (ghOf (run (init p bals) ops) a).sent = r.amount := by
+  have hi := run_stakeLe slashing_code_facts guard_code_facts ops (init p bals) (init_inv p bals) (init_fit p bals)
+    (init_stakeLe p bals)
+  refine ⟨fun t ht => hi.le a r t hr ht, ?_, hi.sent a r hr⟩
+  unfold delegAmt
+  cases h : Store.get (run (init p bals) ops).deleg (a, r.val) with
+  | none => simp
+  | some t => simpa using hi.le a r t hr h
+
+/-- … and for an oracle whose record governance has never removed along the history (`neverRemoved`: no
+`UpdateProposalOracles` dropped `a` from the list while it was listed and registered — in particular when every governance
+update of the history has `a` on its list, `neverRemoved_of_listed`), validator slashing included: a delegation from its
+delegate address to its `DelegateValidator` exists, of at most the recorded `DelegateAmount` tokens (equal until a
+validator slash, never more), and the recorded amount is exactly what the oracle transferred.
+(The ghost `undel = 0` of `stake_accounting` is NOT enough here: a removal of a delegation that was slashed to 0 tokens
+leaves `undel = 0`.) -/
+theorem stake_accounting_with_validator_slash_never_removed (p : Params) (bals : Store Nat Nat) (ops : List Op) (a : Nat)
+    (r : Oracle) (hr : Store.get (run (init p bals) ops).oracles a = some r)
+    (hnever : neverRemoved a (init p bals) ops = true) :
+    (∃ t, Store.get (run (init p bals) ops).deleg (a, r.val) = some t ∧ t ≤ r.amount) ∧
+    (ghOf (run (init p bals) ops) a).sent = r.amount := by
+  have hi := run_lek slashing_code_facts guard_code_facts a ops (init p bals) hnever (init_inv p bals) (init_fit p bals)
+    (init_lek _ p bals)
+  exact hi.acc a r rfl hr
+
+/-- with validator slashing too: a delegate address only ever delegates to the validator its oracle record names, and an
+oracle off the governance list has nothing delegated -/
+theorem stake_only_to_recorded_validator_with_validator_slash (p : Params) (bals : Store Nat Nat) (ops : List Op) :
+    (∀ o v t, Store.get (run (init p bals) ops).deleg (o, v) = some t →
+      ∃ r, Store.get (run (init p bals) ops).oracles o = some r ∧ r.val = v) ∧
+    (∀ a r, Store.get (run (init p bals) ops).oracles a = some r → a ∉ (run (init p bals) ops).proposal →
+      Store.get (run (init p bals) ops).deleg (a, r.val) = none) := by
+  have hi := run_stakeLe slashing_code_facts guard_code_facts ops (init p bals) (init_inv p bals) (init_fit p bals)
+    (init_stakeLe p bals)
+  exact ⟨hi.own, hi.out⟩
 
 /-- a delegate address only ever delegates to the validator its oracle record names, and only while the record exists -/
 theorem stake_only_to_recorded_validator (p : Params) (bals : Store Nat Nat) (ops : List Op) (hthr : 0 < p.thr)
@@ -400,6 +449,23 @@ example : (ghOf (run (init pEx bEx) (life.take 5)) 0).undel = 0 ∧
     Store.get (run (init pEx bEx) (life.take 5)).deleg (0, 0) = some 100 := by decide
 example : ((Store.get reapproved.oracles 0).map (fun r => (r.amount, r.online)), Store.get reapproved.deleg (0, 0),
     (ghOf reapproved 0).undel) = (some (200, true), some 100, 100) := by decide
+
+-- stake_accounting_with_validator_slash: after a 50 % slash of validator 0 oracle 0 is still recorded with 100, has sent
+-- 100, and 50 < 100 is delegated; governance never removed it, so the `_never_removed` form applies as well
+def slashedHalf : List Op := life.take 5 ++ [.valslash 0 1 2]
+example : slashedHalf.all noValSlash = false ∧ neverRemoved 0 (init pEx bEx) slashedHalf = true ∧
+    ((Store.get (run (init pEx bEx) slashedHalf).oracles 0).map (fun r => (r.amount, r.val)),
+      Store.get (run (init pEx bEx) slashedHalf).deleg (0, 0), (ghOf (run (init pEx bEx) slashedHalf) 0).sent,
+      (ghOf (run (init pEx bEx) slashedHalf) 0).undel) = (some (100, 0), some 50, 100, 0) := by decide
+-- … and "`undel = 0` ⇒ a delegation exists" is FALSE with validator slashing, whatever the threshold: validator 0 is
+-- slashed by 100 %, governance removes oracle 0 (undelegating 0 tokens, so `undel` stays 0), re-approves it, and
+-- `AddDelegate` of 0 brings it back online: listed, online, `undel = 0`, recorded 100 — and nothing delegated
+def slashedToZero : List Op := life.take 5 ++ [.valslash 0 1 1, .gov [1, 2, 3], .gov [0, 1, 2, 3], .add 0 0]
+example : 0 < pEx.thr ∧ 0 ∈ (run (init pEx bEx) slashedToZero).proposal ∧
+    ((Store.get (run (init pEx bEx) slashedToZero).oracles 0).map (fun r => (r.amount, r.val, r.online)),
+      Store.get (run (init pEx bEx) slashedToZero).deleg (0, 0), (ghOf (run (init pEx bEx) slashedToZero) 0).undel,
+      (ghOf (run (init pEx bEx) slashedToZero) 0).sent) = (some (100, 0, true), none, 0, 100) ∧
+    neverRemoved 0 (init pEx bEx) slashedToZero = false := by decide
 
 -- stake_recoverable_reachable: its hypotheses hold in the reachable state `life` (oracle 0 removed, matured)
 example : (run (init pEx bEx) life).proposal.contains 0 = false ∧
